@@ -40,6 +40,8 @@ CHECKS = {
          "Lean 4 proof (sortedness + permutation argument over the pattern table) + model/implementation correspondence at and around every switching threshold"),
  "C16": ("Theorems over the model of the four input routes: a Gymir result, the same time-stamped series, a protobuf message with unset per-sample auxiliary power and the operating points (P[:-1], diff t) give identical prepared inputs (and per-sample auxiliary power agrees between the series and protobuf routes); sample k is held for t[k+1]-t[k], the last sample contributes no power, the intervals add up to the span of the stamps; one auxiliary value = the constant series, a series is cut to the number of intervals; equal division among propulsors / auxiliary loads adds up to the whole; equal inputs give equal results. Correspondence: the four real entry points on electric / mechanical+electric / hybrid plants with 1-4 switchboards vs the model's prepared inputs, and the routes' results against each other.",
          "Lean 4 proof (list lemmas) + correspondence of all four real entry points against the model and each other"),
+ "C20": ("Theorems over a decision-procedure model of the structural validation: each of the ten listed families, violated anywhere, makes the configuration rejected; a configuration is accepted exactly when none is violated; kernel-checked witnesses for the families incl. names per category and the single-value exemption; the sampled input-output map test of the constructor (monotoneMap over the C06 forward formula); accepted configurations have no zero denominator in the C01/C04/C06-C08 models (positive ratings, positive clamped efficiency, positive LHV in every complete row of the GENERATED tables, capacity hypothesis). PARTIAL: the model decides from the facts the validation looks at; that the real constructors look at exactly those facts is the correspondence: valid bases x one invalidating change per family vs the real constructors / balance / result.",
+         "Lean 4 proof over a validation decision procedure + correspondence on valid bases and single invalidating changes from every family"),
  "C17": ("Theorems over the storage model: energy = interval-weighted sum of terminal power x charging efficiency / discharging efficiency after converter loss, SoC formula (battery kWh, supercapacitor Wh), accumulated series starts at 0, has n+1 entries and ends at the total, stored energy never exceeds terminal energy for any series (so equal charge and discharge never raise the SoC), closed form for one charge/discharge. The converter is an abstract function constrained only by 'never creates energy'; in the correspondence its per-sample value is an oracle read from the real converter.",
          "Lean 4 proof (induction over series, nlinarith) + model/implementation correspondence with converter oracle"),
  "C19": ("Theorems over the model of FEEMSResult.__merge: every float field, fuel kind, species of either operand and CO2 component added, detail concatenated, duration/load rules of both modes, associativity (same-period: whenever defined; consecutive-period: positive durations and operands that carry a generator load whenever they carry a duration — the excluded case is proved non-associative and is known finding D18), empty result neutral. Operands-unchanged by correspondence only.",
